@@ -33,7 +33,7 @@ After each search the whole class database is compared with the independent dict
 """
 import contextlib
 import multiprocessing
-import time
+import sys
 from collections import Counter
 
 import deal
@@ -467,14 +467,43 @@ def installed():
 # --------------------------------------------------------------------------------------------------------------
 
 EXTRA_LEVELS = 2
+CSS_MODULE = sys.modules[CombinatorialSpecificationSearcher.__module__]
+
+
+class FakeClock:
+    """Deterministic stand-in for the `time` module inside comb_spec_searcher.comb_spec_searcher (harness process only).
+    eager : time advances by one per reading made in `_expand_classes_for` and stands still elsewhere, so every time
+            slice is one work packet and the search stops at the first packet after which a specification exists;
+    coarse: time advances by one per reading, so the first slice is one packet and the following ones 200 packets
+            (practically: the queue is drained before the specification is looked for again)."""
+
+    def __init__(self, mode):
+        self.mode = mode
+        self.now = 0.0
+
+    def time(self):
+        if self.mode == "coarse" or sys._getframe(1).f_code.co_name == "_expand_classes_for":
+            self.now += 1.0
+        return self.now
+
+
+@contextlib.contextmanager
+def clock(mode):
+    real = CSS_MODULE.time
+    CSS_MODULE.time = FakeClock(mode)
+    try:
+        yield
+    finally:
+        CSS_MODULE.time = real
 
 
 def run_case(case):
     """One real search under contract.  case = (pack name, repr(start), ruledb name, expand_verified).
     Returns (violation or None, info)."""
-    pack_name, start_repr, db_name, expand_verified = case
+    pack_name, start_repr, db_name, expand_verified, schedule = case
     start = class_from_repr(start_repr)
-    witness = {"pack": pack_name, "start": start_repr, "ruledb": db_name, "expand_verified": expand_verified}
+    witness = {"pack": pack_name, "start": start_repr, "ruledb": db_name, "expand_verified": expand_verified,
+               "schedule": schedule}
     _LAST.clear()
     _EXPANDED_FOR.clear()
     before = Counter(COUNTS)
@@ -488,7 +517,8 @@ def run_case(case):
             start, PACKS[pack_name](), ruledb=RULEDBS[db_name](), expand_verified=expand_verified)
         silence()
         try:
-            css.auto_search(max_expansion_time=20)
+            with clock(schedule):
+                css.auto_search(max_expansion_time=10**6)
         except (SpecificationNotFound, ExceededMaxtimeError):
             pass
         try:
@@ -551,6 +581,8 @@ def _cases(tier, seed):
                 cases.append((pack_name, repr(start), db_name, False))
                 if non_atom_ver:
                     cases.append((pack_name, repr(start), db_name, True))
+    # the clock of the searcher is replaced by a deterministic one; the two schedules alternate over the cases
+    cases = [c + (("eager", "coarse")[i % 2],) for i, c in enumerate(cases)]
     return cases, len(starts)
 
 
@@ -570,7 +602,7 @@ def run(tier, seed):
     infos.sort(key=lambda x: x[0])
     nontrivial = sum(1 for _, i in infos if i["nontrivial"])
     samples = [
-        {"pack": c[0], "start": c[1], "ruledb": c[2], "expand_verified": c[3], "insertions": i["adds"],
+        {"pack": c[0], "start": c[1], "ruledb": c[2], "expand_verified": c[3], "schedule": c[4], "insertions": i["adds"],
          "classes_labelled": i["classes"]}
         for c, i in infos[:: max(1, len(infos) // 6)][:6]
     ]
@@ -579,8 +611,9 @@ def run(tier, seed):
                   f"(alphabets a, b, ab; <= 2 patterns of length <= 3; prefix length <= 2; 0-2 statistics; "
                   f"{'fixed list' if tier == 'quick' else 'fixed list + seeded sample of the full family'}) x 3 rule "
                   "databases (RuleDB, RuleDBForgetStrategy, RuleDBForest), plus expand_verified=True for packs with a "
-                  "non-atom verification strategy; each search = auto_search to its end followed by "
-                  f"{EXTRA_LEVELS} more levels; contracts at EVERY ClassDB.get_label/get_class and EVERY add"),
+                  "non-atom verification strategy; each search = auto_search to its end under a deterministic clock "
+                  "(alternating: specification looked for after every work packet / only once the queue is drained) "
+                  f"followed by {EXTRA_LEVELS} more levels; contracts at EVERY ClassDB.get_label/get_class and EVERY add"),
         "evaluations": len(cases),
         "distinct_nontrivial": nontrivial,
         "rule": ("one evaluation = one search (pack, start class, rule database, expand_verified), enumerated without "
@@ -610,5 +643,6 @@ def replay(violation):
     silence()
     COUNTS.clear()
     with installed():
-        v, _ = run_case((w["pack"], w["start"], w["ruledb"], w.get("expand_verified", False)))
+        v, _ = run_case((w["pack"], w["start"], w["ruledb"], w.get("expand_verified", False),
+                         w.get("schedule", "coarse")))
     return v is not None
